@@ -1276,6 +1276,8 @@ impl CoreRuntime {
                 }
                 // IR intrinsic bookkeeping: align timer metadata with Python intrinsic IRQ handling.
                 if opcode == 0xFE {
+                    // A software interrupt serves no status bit: its RETI must clear none.
+                    self.timer.delivered_masks.push(0);
                     self.timer.in_interrupt = true;
                     self.timer.irq_pending = false;
                     self.timer.irq_source = Some("IR".to_string());
@@ -1335,12 +1337,13 @@ impl CoreRuntime {
                 self.metadata.cycle_count = new_cycle;
                 if opcode == 0x01 {
                     let irq_src = self.timer.irq_source.clone();
-                    // If irq_source was lost, fall back to the delivered mask stack or live ISR bits.
+                    // The mask saved when this frame was entered says which request it served.
+                    // irq_source is only a "last event" marker (a key/ON press or timer expiry
+                    // inside the handler overwrites it), so it is consulted only when no frame
+                    // was recorded; live ISR bits are the last resort.
                     let stack_mask = self.timer.delivered_masks.pop();
-                    let clear_mask = irq_src
-                        .as_deref()
-                        .and_then(src_mask_for_name)
-                        .or(stack_mask)
+                    let clear_mask = stack_mask
+                        .or_else(|| irq_src.as_deref().and_then(src_mask_for_name))
                         .or_else(|| {
                             self.memory
                                 .read_internal_byte(IMEM_ISR_OFFSET)
